@@ -230,6 +230,13 @@ func checkC05(p *Prog, rp *Report) {
 		}
 	}
 
+	// a parsed value keeps rendering the same: later decodes into the same variable do not reach into it
+	al := rp.Rule("C05-ALIAS", "a decoded dependency is not changed by later decodes into the variable it was copied from", 1)
+	if rp2, und := receiverReuse(p); und != "" {
+		al.undecided("dependency.Dependency.UnmarshalControl", p.Pos(parse.Pos()), und)
+	} else {
+		fillProblems(al, "dependency.Dependency.UnmarshalControl", p.Pos(parse.Pos()), rp2, "decode, copy, decode again: the copy is unchanged and the variable holds exactly the second value")
+	}
 	c05Arch(p, rp)
 	c05Fixpoint(p, rp)
 }
